@@ -33,6 +33,10 @@ func readBackFrom(rd avro.Reader, ts spec.TypeSpec, typ reflect.Type, byPointer 
 }
 
 func readBackDirty(rd avro.Reader, ts spec.TypeSpec, typ reflect.Type, byPointer bool, dirty bool) ([]spec.AbsVal, error) {
+	return readBackClosing(rd, ts, typ, byPointer, dirty, false)
+}
+
+func readBackClosing(rd avro.Reader, ts spec.TypeSpec, typ reflect.Type, byPointer bool, dirty bool, closeBanks bool) ([]spec.AbsVal, error) {
 	var out interface{}
 	if byPointer {
 		p := reflect.New(typ)
@@ -53,6 +57,11 @@ func readBackDirty(rd avro.Reader, ts spec.TypeSpec, typ reflect.Type, byPointer
 		got = append(got, spec.Abs(ts, false, v))
 		if e := skippedFieldsZero(ts, v, ""); e != nil && skipErr == nil {
 			skipErr = e
+		}
+		if closeBanks {
+			// done with the record (the snapshot above is a deep copy): the bank goes
+			// back to the pool and is handed out again for a later record
+			rb.Close()
 		}
 		return nil
 	})
@@ -100,7 +109,11 @@ func runC01(c encCase) (bool, []string, error) {
 	if dirty {
 		labels = append(labels, "dirty_target")
 	}
-	out, err := readBackDirty(makeReader(c.Reader, file), c.Type, typ, c.ByPointer, dirty)
+	closeBanks := len(file)%3 != 0 // the usual consumer: done with a record, close its bank
+	if closeBanks {
+		labels = append(labels, "banks_closed_in_callback")
+	}
+	out, err := readBackClosing(makeReader(c.Reader, file), c.Type, typ, c.ByPointer, dirty, closeBanks)
 	if err != nil {
 		return nt, labels, err
 	}
@@ -119,4 +132,15 @@ func TestC01(t *testing.T) {
 	col := stats.New("C01")
 	col.Rule = c01Rule
 	propCheck(t, col, "c01", drawEncCase, runC01)
+}
+
+// TestC01Repetitive: the same round trip for highly repetitive data (thousands of
+// identical rows per block), which the general generator is too slow to produce.
+func TestC01Repetitive(t *testing.T) {
+	col := stats.New("C01")
+	col.Rule = c01Rule
+	propCheck(t, col, "c01", drawRepetitiveCase, func(c encCase) (bool, []string, error) {
+		nt, labels, err := runC01(c)
+		return nt, append(labels, "repetitive"), err
+	})
 }
